@@ -80,10 +80,10 @@ def check(rep, tier):
     # then warms up again and for minutes no point is supercooled; the vial nucleates later from the bottom.  What was accumulated still counts.
     try:
         progP = dict(start=20, end=-60, rate=3.0 / 60, holds=[], t_tot=5200.0, dt=1.0)
-        exP = {"VISF": {"p_vac": 200, "t_vac_start": 1 / 60, "t_vac_duration": 1 / 60}, "kinetics": {"a": 20.7}}
+        exP = {"VISF": {"p_vac": 200, "t_vac_start": 1 / 60, "t_vac_duration": 46.0 / 3600}, "kinetics": {"a": 20.7}}      # E reaches ~0.5 (< 0.80) during the pulse
         SP = sr.make(dim="spatial_2D", conf="VISF", height=0.04, diameter=0.08, K=400, prog=progP, extra=exP)
         dtP, _ = sr.step_info(SP)
-        recP = dict(label="spatial_2D/VISF h=0.04 d=0.08 K=400 vacuum pulse 60-120 s at 200 Pa, a=20.7 (hazard accumulated, then nothing supercooled, then nucleation)",
+        recP = dict(label="spatial_2D/VISF h=0.04 d=0.08 K=400 vacuum pulse 60-106 s at 200 Pa, a=20.7 (hazard accumulated, then nothing supercooled, then nucleation)",
                     dim="spatial_2D", conf="VISF", S=SP, dt=dtP, prog=progP, error=None, must_complete=True)
         sr.run(SP)
     except Exception as e:
@@ -176,6 +176,7 @@ def check(rep, tier):
         gap = int(((E > 0) & (Kv == 0)).sum())
         if gap:
             rep.count("steps with nothing supercooled after the hazard integral had become positive", gap)
+            rep.coverage["hazard_integral_carried_through_the_gap"] = max(rep.coverage.get("hazard_integral_carried_through_the_gap", 0.0), float(E[(E > 0) & (Kv == 0)].max()))
         Fn = 1 - np.exp(-E)
         first = np.nonzero(Fn > F)[0]
         if not len(first) or first[0] != ie:
